@@ -650,6 +650,7 @@ def _enabled(m, cfg):
                 ops.append(["set", path, "unit", v])
             for v in V((None, 0.5, 2)):
                 ops.append(["set", path, "uncertainty", v])
+            ops.append(["set", path, "uncertainty", 2.00001])
         if k == "Property" and want("pvalues") and n["values"]:
             v0 = n["values"][0]
             alt = {"bool": [False, True], "int64": [5, -6], "float64": [2.5, -0.5], "str": ["q", "ü"]}[pdtype(v0)]
@@ -667,6 +668,9 @@ def _enabled(m, cfg):
                 if n["$data"].get("$arr") != "str":
                     for v in V((None, 0, 3, 2.5)):
                         ops.append(["set", path, "expansion_origin", v])
+                    # two values that differ by less than 1e-5 relative: the last write still wins
+                    ops.append(["set", path, "expansion_origin", 250000.0])
+                    ops.append(["set", path, "expansion_origin", 250001.0])
                     for v in V(([], [1.0, 2.0], None)):
                         ops.append(["set", path, "polynom_coefficients", v])
             if want("dims"):
@@ -686,6 +690,11 @@ def _enabled(m, cfg):
                         ops.append(["set", dp, "offset", 0.75])
                         ops.append(["set", dp, "offset", None])
                         ops.append(["set", dp, "sampling_interval", 0.25])
+                        # values that differ by less than 1e-8 absolute
+                        ops.append(["set", dp, "offset", 2.5e-9])
+                        ops.append(["set", dp, "offset", 7.5e-9])
+                        ops.append(["set", dp, "sampling_interval", 1e-9])
+                        ops.append(["set", dp, "sampling_interval", 4e-9])
                         if not thin:
                             ops.append(["set", dp, "offset", 3])
                             ops.append(["set", dp, "sampling_interval", 4])
